@@ -89,7 +89,7 @@ fn fin_of(f: &Fin) -> ProgressFinish {
 
 /// Iterator-driven completion on the implementation.  Returns the equivalent Case (ops as the
 /// model sees them) and the per-`next()` observations.
-fn run_iter_case(r: &mut Rng) -> (Case, Vec<StepObs>) {
+fn run_iter_case(r: &mut Rng) -> (Case, Vec<StepObs>, Option<usize>) {
     use indicatif::verif_clock as vc;
     let w = *r.pick(&[5u16, 10, 40]);
     let wu = w as usize;
@@ -118,6 +118,7 @@ fn run_iter_case(r: &mut Rng) -> (Case, Vec<StepObs>) {
     let mut obs = vec![];
     let mut t = 0u64;
     let finished_early = r.chance(1, 6);
+    let mut none_idx = None;
     let mut it = pb.wrap_iter(0..items);
     loop {
         t += *r.pick(&[0u64, 0, 1, 1000, 60_000_000]);
@@ -142,7 +143,9 @@ fn run_iter_case(r: &mut Rng) -> (Case, Vec<StepObs>) {
                 obs.push(StepObs { emitted, ok: true, getters: vec![Some(get(&pb))], panic: None });
             }
             Ok(None) => {
-                // ProgressBarIter::next (src/iter.rs:120-130): finish_using_style unless finished
+                none_idx = Some(ops.len());
+                // ProgressBarIter::next (src/iter.rs:120-130): finish_using_style unless finished (this
+                // distinction is only the ORACLE's view; the model evaluates iter_none_step)
                 if !obs.last().and_then(|o: &StepObs| o.getters.first().cloned().flatten()).map_or(false, |g| g.finished) {
                     ops.push((t, Op::FinishUsingStyle(0)));
                     obs.push(StepObs { emitted, ok: true, getters: vec![Some(get(&pb))], panic: None });
@@ -161,7 +164,238 @@ fn run_iter_case(r: &mut Rng) -> (Case, Vec<StepObs>) {
     let res = catch(move || drop(pb));
     ops.push((t + 1, Op::Drop(0)));
     obs.push(StepObs { emitted: spy.take(), ok: true, getters: vec![None], panic: res.err() });
-    (Case { w, h: 60, fail_at: vec![], fail_from: None, mp: TInit::Hidden, bars: vec![bar], ops }, obs)
+    (Case { w, h: 60, fail_at: vec![], fail_from: None, mp: TInit::Hidden, bars: vec![bar], ops }, obs, none_idx)
+}
+
+/// the Coq term of an iterator-driven history: the end of the wrapped iterator is `IterNone` /
+/// `IterNoneThenDrop` (model/SimCheck.v: evaluated with iter_none_step), every other step an op
+fn citer(case: &Case, obs: &[StepObs], none: Option<(usize, bool)>) -> String {
+    let n = obs.iter().take_while(|o| o.panic.is_none()).count();
+    let iops: Vec<String> = case.ops[..n]
+        .iter()
+        .enumerate()
+        .map(|(i, (t, o))| match none {
+            Some((k, then_drop)) if k == i => format!("({t}, {} 0)", if then_drop { "IterNoneThenDrop" } else { "IterNone" }),
+            _ => format!("({t}, IOp ({}))", cop(o)),
+        })
+        .collect();
+    format!("(CIter {} {})", coq_case(case, obs).replacen("(mkcase ", "(SysCheck.mkcase ", 1), clist(iops))
+}
+
+const CONSUMERS: [&str; 13] = [
+    "for-loop", "for_each", "fold", "count", "sum", "last", "max", "collect", "nth-past-the-end", "by_ref+take", "try_for_each",
+    "next_back-loop", "rev+for_each",
+];
+
+/// Drives a ProgressBarIter to exhaustion through one consumer family.  `own`: the iterator holds the
+/// only handle (`progress_with(pb)`) instead of a clone (`pb.wrap_iter`); `member`: the bar is a
+/// member of a MultiProgress.  Every item and the end of the iteration are observed (inspect /
+/// the consumer's own closure).  Returns the oracle's view of the history (the end of the iteration
+/// as FinishUsingStyle resp. Drop), the observations and the index of the end step.
+fn run_iter_consumer(r: &mut Rng, consumer: usize, own: bool, member: bool) -> (Case, Vec<StepObs>, usize, bool, String) {
+    use indicatif::verif_clock as vc;
+    use indicatif::{MultiProgress, ProgressIterator};
+    use std::cell::RefCell;
+    let w = *r.pick(&[10u16, 40]);
+    let wu = w as usize;
+    let items = r.below(12) as u32;
+    let hz = *r.pick(&[None, Some(1u8), Some(20)]);
+    let bar = BarInit {
+        len: match r.below(4) {
+            0 => None,
+            1 => Some(items as u64 + r.below(5)),
+            _ => Some(items as u64),
+        },
+        fin: gen_fin_short(r, wu),
+        tmpl: gen_small_tmpl(r, wu, 0),
+        target: if member { TInit::Hidden } else { TInit::Term(hz) },
+    };
+    vc::set_auto_step_ns(0);
+    vc::set_clock_ns(vc::ORIGIN_NS);
+    let spy = Spy::new(w, 60);
+    let mk = |spy: &Spy| match hz {
+        None => ProgressDrawTarget::term_like(Box::new(spy.clone())),
+        Some(h) => ProgressDrawTarget::term_like_with_hz(Box::new(spy.clone()), h),
+    };
+    let mp = MultiProgress::with_draw_target(if member { mk(&spy) } else { ProgressDrawTarget::hidden() });
+    let pb = ProgressBar::with_draw_target(bar.len, if member { ProgressDrawTarget::hidden() } else { mk(&spy) }).with_finish(fin_of(&bar.fin));
+    pb.set_style(style_of(&bar.tmpl));
+    let ops: RefCell<Vec<(u64, Op)>> = RefCell::new(vec![]);
+    let obs: RefCell<Vec<StepObs>> = RefCell::new(vec![]);
+    let pb = if member {
+        let p = mp.add(pb);
+        ops.borrow_mut().push((0, Op::Insert(Loc::End, 0)));
+        obs.borrow_mut().push(StepObs {
+            emitted: spy.take(),
+            ok: true,
+            getters: vec![Some(Getters { pos: p.position(), len: p.length(), finished: p.is_finished(), msg: p.message(), prefix: p.prefix() })],
+            panic: None,
+        });
+        p
+    } else {
+        pb
+    };
+    let weak = pb.downgrade();
+    let get = || weak.upgrade().map(|p| Getters { pos: p.position(), len: p.length(), finished: p.is_finished(), msg: p.message(), prefix: p.prefix() });
+    let gaps = [0u64, 0, 1, 1000, 60_000_000];
+    let t = RefCell::new(1_000u64);
+    vc::set_clock_ns(vc::ORIGIN_NS + *t.borrow());
+    let seed = RefCell::new(r.fork());
+    // called after every item: the observation of the `inc(1)` that next()/next_back() just made
+    let f = |_x: u32| {
+        ops.borrow_mut().push((*t.borrow(), Op::Inc(0, 1)));
+        obs.borrow_mut().push(StepObs { emitted: spy.take(), ok: true, getters: vec![get()], panic: None });
+        *t.borrow_mut() += *seed.borrow_mut().pick(&gaps);
+        vc::set_clock_ns(vc::ORIGIN_NS + *t.borrow());
+    };
+    let keep = if own { None } else { Some(pb.clone()) };
+    let it = (0..items).progress_with(pb);
+    // consumers that take the iterator by value drop it at the end; the others leave it alive
+    let res = catch(|| -> Option<indicatif::ProgressBarIter<std::ops::Range<u32>>> {
+        match consumer {
+            0 => {
+                for x in it {
+                    f(x)
+                }
+                None
+            }
+            1 => {
+                it.for_each(&f);
+                None
+            }
+            2 => {
+                let _ = it.fold(0u32, |a, x| {
+                    f(x);
+                    a + 1
+                });
+                None
+            }
+            3 => {
+                let _ = it.inspect(|x| f(*x)).count();
+                None
+            }
+            4 => {
+                let _: u32 = it.inspect(|x| f(*x)).sum();
+                None
+            }
+            5 => {
+                let _ = it.inspect(|x| f(*x)).last();
+                None
+            }
+            6 => {
+                let _ = it.inspect(|x| f(*x)).max();
+                None
+            }
+            7 => {
+                let _: Vec<u32> = it.inspect(|x| f(*x)).collect();
+                None
+            }
+            8 => {
+                let mut it = it;
+                let _ = it.by_ref().inspect(|x| f(*x)).nth(items as usize + 3);
+                Some(it)
+            }
+            9 => {
+                let mut it = it;
+                let _ = it.by_ref().take(items as usize + 2).inspect(|x| f(*x)).count();
+                Some(it)
+            }
+            10 => {
+                let mut it = it;
+                let _ = it.try_for_each(|x| {
+                    f(x);
+                    Some(())
+                });
+                Some(it)
+            }
+            11 => {
+                let mut it = it;
+                while let Some(x) = it.next_back() {
+                    f(x)
+                }
+                Some(it)
+            }
+            _ => {
+                it.rev().for_each(&f);
+                None
+            }
+        }
+    });
+    let (alive_it, panic) = match res {
+        Ok(x) => (x, None),
+        Err(e) => (None, Some(e)),
+    };
+    // the end of the iteration: the None branch of next()/next_back(); when the iterator held the
+    // only handle and was consumed by value, the bar is gone as well (one combined step)
+    let then_drop = own && alive_it.is_none();
+    let none_idx = ops.borrow().len();
+    ops.borrow_mut().push((*t.borrow(), if then_drop { Op::Drop(0) } else { Op::FinishUsingStyle(0) }));
+    obs.borrow_mut().push(StepObs { emitted: spy.take(), ok: true, getters: vec![get()], panic });
+    // remaining handles go away: nothing may be drawn any more (the bar is finished)
+    if !then_drop {
+        *t.borrow_mut() += 1;
+        vc::set_clock_ns(vc::ORIGIN_NS + *t.borrow());
+        let res = catch(move || {
+            drop(alive_it);
+            drop(keep);
+        });
+        ops.borrow_mut().push((*t.borrow(), Op::Drop(0)));
+        obs.borrow_mut().push(StepObs { emitted: spy.take(), ok: true, getters: vec![get()], panic: res.err() });
+    }
+    let _ = catch(move || drop(mp));
+    let case = Case {
+        w,
+        h: 60,
+        fail_at: vec![],
+        fail_from: None,
+        mp: if member { TInit::Term(hz) } else { TInit::Hidden },
+        bars: vec![bar],
+        ops: ops.into_inner(),
+    };
+    let desc = format!(
+        "iterator consumer={} handle={} {} items={items} {}",
+        CONSUMERS[consumer],
+        if own { "progress_with(only handle)" } else { "wrap_iter(other handle alive)" },
+        if member { "MultiProgress member" } else { "standalone" },
+        describe(&case)
+    );
+    (case, obs.into_inner(), none_idx, then_drop, desc)
+}
+
+/// oracle for the end of an iterator-driven history: the bar is finished with its stored
+/// ProgressFinish (final state), the end step paints (a forced draw) and, for a standalone bar,
+/// what it paints is the rendering of the final state
+fn check_iter_end(s: &mut Session, case: &Case, obs: &[StepObs], none_idx: usize, desc: &str) {
+    if obs.len() <= none_idx || obs.iter().any(|o| o.panic.is_some()) {
+        return;
+    }
+    let before = if none_idx == 0 { None } else { obs[none_idx - 1].getters[0].clone() };
+    let pre = before.unwrap_or(Getters { pos: 0, len: case.bars[0].len, finished: false, msg: String::new(), prefix: String::new() });
+    let want = if pre.finished { pre.clone() } else { expected_final(&pre, &case.bars[0].fin) };
+    let o = &obs[none_idx];
+    if let Some(g) = &o.getters[0] {
+        if !g.finished {
+            s.fail("iterator-exhaustion-did-not-finish", format!("is_finished() is false after the iterator was exhausted (getters {:?})", g), desc.to_string());
+            return;
+        }
+        if *g != want {
+            s.fail("finish-final-state-wrong", format!("after exhaustion: getters {:?}, the stored ProgressFinish defines {:?}", g, want), desc.to_string());
+        }
+    }
+    let visible = matches!(case.bars[0].target, TInit::Term(_)) || matches!(case.mp, TInit::Term(_));
+    if visible && !pre.finished {
+        if !o.emitted.iter().any(|x| *x == TOp::Flush) {
+            s.fail("iterator-exhaustion-did-not-finish", format!("the end of the iteration made no complete draw (emitted {:?})", o.emitted), desc.to_string());
+        } else if matches!(case.bars[0].target, TInit::Term(_)) {
+            let mut vt = Vt::new(case.w, 60);
+            vt.feed(&o.emitted);
+            let exp = expected_rows(&case.bars[0].tmpl, &want, matches!(case.bars[0].fin, Fin::AndClear), case.w as usize);
+            if vt.rows() != exp {
+                s.fail("finish-frame-wrong", format!("the end of the iteration painted {:?}; the final state {:?} renders as {:?}", vt.rows(), want, exp), desc.to_string());
+            }
+            s.count("final_frames_checked:iterator");
+        }
+    }
 }
 
 fn expected_final(pre: &Getters, k: &Fin) -> Getters {
@@ -353,9 +587,16 @@ fn gen_small_h(r: &mut Rng, multi: bool) -> Case {
 
 fn main() {
     let a = args();
-    let mut s = Session::new(&a, "C04", COQ_HEADER, COQ_CASE_TY, COQ_CHECKER);
+    // every system case is written as `(mkcase ..)` by sysrun::coq_case (also inside the shared
+    // run_sys_cases): in the C04 shards that name is a notation that wraps the record into c04case
+    let header = format!(
+        "{}From IndModel Require Import SimCheck.\nNotation mkcase := (fun a b c d e f g h => CSys (SysCheck.mkcase a b c d e f g h)).\n",
+        COQ_HEADER
+    );
+    // c04case: system cases (coercion CSys) and iterator-driven histories (CIter, iter_none_step)
+    let mut s = Session::new(&a, "C04", &header, "c04case", "c04_check");
     s.shard_size = 120;
-    s.rule = "finish-heavy histories: (a) a single bar on a 1/20/255 Hz target, 25-45 zero-gap ordinary updates (both limiters exhausted), then finish/finish_with_message/finish_and_clear/abandon/abandon_with_message/finish_using_style/drop with every stored ProgressFinish, more calls, then drop; (b) MultiProgress histories with bursts, finishes and drops of all bars in random order, one in five with MultiProgressAlignment::Bottom (histograms alignment:/W:/H:/bars: in the distribution); (c) iterator-driven completion (ProgressBarIter::next recorded call by call); (d) terminals lower than the frames (H 1-6, W 2-8): the finishing draw must paint the fitting prefix, height-cut defects are classified by cause under their C19 class names; oracle: final state, the finishing call paints exactly the rendering of the final state, is_finished() afterwards, dropping a finished bar makes no call, kept bars stay in order (screen oracle); non-trivial = contains a finish/abandon/drop after at least 10 ops (iterator: at least 3 items); distinct = distinct case text".into();
+    s.rule = "finish-heavy histories: (a) a single bar on a 1/20/255 Hz target, 25-45 zero-gap ordinary updates (both limiters exhausted), then finish/finish_with_message/finish_and_clear/abandon/abandon_with_message/finish_using_style/drop with every stored ProgressFinish, more calls, then drop; (b) MultiProgress histories with bursts, finishes and drops of all bars in random order, one in five with MultiProgressAlignment::Bottom (histograms alignment:/W:/H:/bars: in the distribution); (c) iterator-driven completion: ProgressBarIter::next recorded call by call, and every consumer family (for loop, for_each, fold, count, sum, last, max, collect, nth past the end, by_ref+take, try_for_each, next_back loop, rev+for_each) x {wrap_iter: another handle alive, progress_with: only handle} x {standalone, MultiProgress member}; the end of the iteration is evaluated in the model with iter_none_step; (d) terminals lower than the frames (H 1-6, W 2-8): the finishing draw must paint the fitting prefix, height-cut defects are classified by cause under their C19 class names; oracle: final state, the finishing call paints exactly the rendering of the final state, is_finished() afterwards, dropping a finished bar makes no call, kept bars stay in order (screen oracle); non-trivial = contains a finish/abandon/drop after at least 10 ops (iterator: at least 3 items); distinct = distinct case text".into();
     let mut r = Rng::new(a.seed);
     let n = if a.thorough { 4000 } else if a.extended { 3000 } else { 500 };
     let mut cases = vec![];
@@ -406,9 +647,9 @@ fn main() {
     }
     s.count_n("cases_with_small_height", small.len() as u64);
     run_sys_cases(&mut s, &small, &nontrivial);
-    // (c) iterator-driven completion
+    // (c) iterator-driven completion: next() call by call ...
     for _ in 0..n / 4 {
-        let (case, obs) = run_iter_case(&mut r);
+        let (case, obs, none_idx) = run_iter_case(&mut r);
         let desc = format!("iterator {}", describe(&case));
         if let Some(p) = obs.iter().find_map(|o| o.panic.clone()) {
             s.fail("panic", p, desc.clone());
@@ -426,7 +667,34 @@ fn main() {
         s.count(&format!("H:{}", case.h));
         s.count_n("iterator_items", case.ops.iter().filter(|(_, o)| matches!(o, Op::Inc(..))).count() as u64);
         let nt = case.ops.len() >= 5;
-        s.case(coq_case(&case, &obs), desc, nt);
+        s.case(citer(&case, &obs, none_idx.map(|k| (k, false))), desc, nt);
+    }
+    // ... and through every consumer family, with and without another handle, standalone and member
+    let rounds = if a.thorough { 12 } else if a.extended { 6 } else { 2 };
+    for _ in 0..rounds {
+        for consumer in 0..CONSUMERS.len() {
+            for own in [false, true] {
+                for member in [false, true] {
+                    let (case, obs, none_idx, then_drop, desc) = run_iter_consumer(&mut r, consumer, own, member);
+                    if let Some(p) = obs.iter().find_map(|o| o.panic.clone()) {
+                        s.fail("panic", p, desc.clone());
+                    }
+                    check_iter_end(&mut s, &case, &obs, none_idx, &desc);
+                    if !then_drop {
+                        // dropping the remaining handles of the finished bar draws nothing
+                        if let Some(o) = obs.last() {
+                            if !member && !o.emitted.is_empty() {
+                                s.fail("drop-of-finished-bar-draws", format!("dropping the handles after the iteration emitted {:?}", o.emitted), desc.clone());
+                            }
+                        }
+                    }
+                    s.count(&format!("iterator_consumer:{}", CONSUMERS[consumer]));
+                    s.count(if own { "iterator_handle:only" } else { "iterator_handle:other-alive" });
+                    s.count(if member { "iterator_bar:member" } else { "iterator_bar:standalone" });
+                    s.case(citer(&case, &obs, Some((none_idx, then_drop))), desc, true);
+                }
+            }
+        }
     }
     s.finish();
 }
